@@ -461,6 +461,44 @@ func (e *Exec) external(fn *Func, args []Val) Val {
 			}
 		}
 		return nil
+	case "verif_spec_reset", "verif_spec_set", "verif_spec_get", "verif_spec_call":
+		if e.cfg.Spec == nil {
+			e.unsupported("%s without a reference interpreter", fn.Name)
+		}
+		if e.spec == nil {
+			e.spec = e.cfg.Spec()
+		}
+		name := e.cString(args[0])
+		var t *sym.Term
+		var err error
+		switch fn.Name {
+		case "verif_spec_reset":
+			err = e.spec.Reset(name)
+		case "verif_spec_set":
+			err = e.spec.Set(name, e.concretize(asTerm(args[1])), asTerm(args[2]))
+		case "verif_spec_get":
+			t, err = e.spec.Get(name, e.concretize(asTerm(args[1])))
+		case "verif_spec_call":
+			var as []*sym.Term
+			for _, a := range args[1:] {
+				as = append(as, asTerm(a))
+			}
+			t, err = e.spec.Call(name, as, func(c *sym.Term, label string) { e.check(c, label) })
+		}
+		if err != nil {
+			e.unsupported("%s(%s): %v", fn.Name, name, err)
+		}
+		if fn.Name == "verif_spec_get" || fn.Name == "verif_spec_call" {
+			// the reference value is recorded like a nondeterministic input that is constrained to equal the
+			// interpreter's term, so that the native replay (which has no interpreter) reads it from the model
+			v := e.nondet("s64", 64)
+			if t == nil {
+				t = sym.BV(0, 64)
+			}
+			e.addPC(sym.Eq(v, t))
+			return v
+		}
+		return nil
 	case "verif_same_bytes":
 		// verif_same_bytes(p, q, n): are the n bytes at p and q identical (as terms or values)?
 		p, q := args[0].(*PtrVal), args[1].(*PtrVal)
